@@ -411,7 +411,8 @@ theorem main_stepN (ft : Feat) (e : BEnv) (Γ : Ctx) (cfg : SerCfg) (pcfg : Pars
         (fun c hc => by
           obtain ⟨var, hv, hcv⟩ := List.mem_flatMap.1 hc
           obtain ⟨rfl, hem⟩ := mem_emitOfN hcv
-          exact ⟨(hEF var hv).1, (hB var hv).shape, hem, fun y hy => ((hB var hv).items y hy).1⟩)
+          exact ⟨(hEF var hv).1, (hB var hv).shape, hem, fun y hy =>
+            ((hB var hv).items y hy _ (by unfold chunkFuel; split <;> simp_all)).1⟩)
       rw [chunks_trees] at hBodyW hbodyNil
       -- emptiness of the content on both sides
       have hempty : body.flatten.isEmpty = (mp.elementVars.flatMap fun var =>
@@ -433,7 +434,7 @@ theorem main_stepN (ft : Feat) (e : BEnv) (Γ : Ctx) (cfg : SerCfg) (pcfg : Pars
           ItemP e Γ pcfg M mp en.1 en.2 (itemTreeNN M (treeNN Γ cfg M n (targetUri mp.qname)) en.1 en.2) := by
         intro en hen
         obtain ⟨hv, hy⟩ := mem_blockEntries hen
-        exact ⟨(hEF _ hv).1, ((hB _ hv).items _ hy).2.1, ((hB _ hv).items _ hy).2.2⟩
+        exact ⟨(hEF _ hv).1, ((hB _ hv).items _ hy _ (Or.inl rfl)).2.1, ((hB _ hv).items _ hy _ (Or.inl rfl)).2.2⟩
       have hplainK : plainList M (mp.elementVars.flatMap fun var =>
           varTreesN M (treeNN Γ cfg M n (targetUri mp.qname)) var (look fields var.name)) = true := by
         rw [plainList_iff]
@@ -442,7 +443,7 @@ theorem main_stepN (ft : Feat) (e : BEnv) (Γ : Ctx) (cfg : SerCfg) (pcfg : Pars
         simp only [varTreesN] at htv
         split at htv
         · cases htv
-        · exact (plainList_iff M _).1 (plain_chunkTrees (fun y hy => ((hB var hv).items y hy).2.1)) t htv
+        · exact (plainList_iff M _).1 (plain_chunkTrees (fun y hy => ((hB var hv).items y hy _ (Or.inl rfl)).2.1)) t htv
       -- the parser
       have hK := parseKids_chunks e Γ pcfg M MF.choices MF.wild
         (fun en => itemTreeNN M (treeNN Γ cfg M n (targetUri mp.qname)) en.1 en.2)
@@ -453,7 +454,7 @@ theorem main_stepN (ft : Feat) (e : BEnv) (Γ : Ctx) (cfg : SerCfg) (pcfg : Pars
           refine ⟨(hEF var hv).1, fun en hen => ?_⟩
           simp only [chunkEntries, List.mem_map] at hen
           obtain ⟨y, hy, rfl⟩ := hen
-          exact ((hB var hv).items y hy).2.2)
+          exact ((hB var hv).items y hy _ (Or.inl rfl)).2.2)
         (by
           rw [chunks_entries]
           exact AssignedOK_blocks _ _ [] (fun var hv => (hB var hv).short) MF.idxNodup
